@@ -102,10 +102,14 @@ def apply(name: str, par: Dict[str, Any], ops: List[Any], model: bool):
         return [M.from_numeric(numpy.asarray(x)) for x in numpoly.where(a)]
     if name == "full":
         if model:
+            if tuple(a.shape) != ():  # an array-valued fill is broadcast into the shape
+                return numpy.broadcast_to(a, tuple(par["shape"])).copy()
             out = numpy.empty(tuple(par["shape"]), dtype=object)
             for i in numpy.ndindex(*out.shape):
                 out[i] = a.item()
             return out
+        if par.get("order"):
+            return numpoly.full(tuple(par["shape"]), a, order=par["order"])
         return numpoly.full(tuple(par["shape"]), a)
     if name == "full_like":
         if model:
@@ -374,6 +378,12 @@ def _gen_round(rng, quick: bool, lim: Dict, rnd: int) -> List[Dict]:
     for shape in [(), (2,), (2, 2), (1, 2, 1)]:
         add("full", [P((), "a", nterms=2)], {"shape": list(shape)})
         add("full_like", [P(shape, "a"), P((), "b", nterms=2, names=("q1", "q2"))])
+    # array-valued fills broadcast into the shape, in both memory orders
+    for shape, fshape in [((2, 3), (3,)), ((3, 2), (3, 1)), ((2, 2, 2), (2, 1, 2)), ((2, 3), ())]:
+        for order in ("C", "F"):
+            sp = S.make_poly_spec("a", ("q0", "q1"), [[1, 0], [0, 2]], fshape, rng, 3, zero_prob=0.0, literal_prob=0.2, mode="raw")
+            sp.pop("pre", None)
+            add("full", [sp], {"shape": list(shape), "order": order}, tag="-idx-order%s" % order)
     # indexing: basic and advanced from a fixed grammar
     index_cases = {
         (3,): [0, -1, ["slice", None, None, None], ["slice", 1, None, None], ["slice", None, None, -1], ["slice", 0, 3, 2], ["arr", [2, 0]], ["bool", [True, False, True]], "newaxis", "ellipsis", ["list", [1, 1]]],
